@@ -164,12 +164,14 @@ class World:
     def facts(self, mi, name):
         """structural facts about the closure of a units, used by the carve-outs and the finding matchers"""
         f = {"imports": False, "import_exp_ne1": False, "bad_prefix": False, "exp_ne1_scaled": False, "exp_ne1": False,
-             "scaled_compound_ref": False, "bare_std_scaled": False, "import_visits": 0, "import_of_import": False}
+             "scaled_compound_ref": False, "bare_std_scaled": False, "import_visits": 0, "import_of_import": False,
+             "import_targets": set()}
 
         def fn(mi2, n2, u, e, idepth):
             if "imp" in u:
                 f["imports"] = True
                 f["import_visits"] += 1
+                f["import_targets"].add(u["imp"][0])
                 if idepth >= 1:
                     f["import_of_import"] = True     # an import inside the closure of an imported units
                 if e != 1 and not self.is_base(mi2, n2):
@@ -190,7 +192,9 @@ class World:
                         f["scaled_compound_ref"] = True
         self.walk(mi, name, fn)
         # the import history is never popped: a second visit of imported units after an import of an import looks like a cycle
-        f["import_revisit"] = f["import_visits"] >= 3 and f["import_of_import"]
+        # (the source url of an epoch is the destination of the latest epoch with another destination: an outer import, or a
+        # sibling import from another model)
+        f["import_revisit"] = f["import_visits"] >= 3 and (f["import_of_import"] or len(f["import_targets"]) >= 2)
         return f
 
 
@@ -593,6 +597,7 @@ def run(ctx):
     build = vf.build_repo("plain")
     drv = vf.compile_driver(build, os.path.join(vf.ROOT, "harness/c08_driver.cpp"))
     mdl = vf.ocaml_driver("units")
+    drv, mdl = _private_copy(ctx, drv, "c08_driver"), _private_copy(ctx, mdl, "units_model_driver")
 
     nworlds = 4000 if quick else 30000
     worlds = []
@@ -747,6 +752,16 @@ def run(ctx):
     ctx.cov["traces_validated_against_impl"] = len(worlds) + len(vcases) + len(acases)
 
 
+def _private_copy(ctx, exe, name):
+    """the build cache (.build, .work/ocaml) is shared with concurrently running checks, which may prune it"""
+    import shutil
+    dst = os.path.join(ctx.workdir, name)
+    tmp = dst + ".%d.tmp" % os.getpid()
+    shutil.copy2(exe, tmp)
+    os.replace(tmp, dst)
+    return dst
+
+
 def _find(w, name):
     for (mi, nm) in w.tops:
         if nm == name and (mi == 0 or w.models[mi]["kind"] == "L"):
@@ -857,6 +872,7 @@ def replay(ctx, path):
     build = vf.build_repo("plain")
     drv = vf.compile_driver(build, os.path.join(vf.ROOT, "harness/c08_driver.cpp"))
     mdl = vf.ocaml_driver("units")
+    drv, mdl = _private_copy(ctx, drv, "c08_driver_replay"), _private_copy(ctx, mdl, "units_model_driver_replay")
     cf = os.path.join(ctx.workdir, "replay.cases")
     open(cf, "w").write(r["case"] + "\n")
     il = vf.sh([drv, cf])[1].strip()
